@@ -38,6 +38,12 @@ def kinds_in(e):
     return out
 
 
+def kind_calls(f, kind):
+    """Calls of f to a Core routine that is handed SinkContextKind::<kind>."""
+    eb = ExprBuilder(f)
+    return [c for c in f.calls() if c.path.startswith(CORE + "::") and any(kind in kinds_in(eb.operand(a)) for a in c.args)]
+
+
 def siblings(facts):
     out = []
     for f in facts.fns_in(CORE + "::"):
@@ -88,9 +94,33 @@ def stopnm_invert_rule(ctx, r):
 
 def run(ctx):
     facts = ctx.facts
-    sib = siblings(facts)
     with ctx.rule("C03.DELIVER", "the line-delivering siblings agree on binary check, counting, offset, cursor update",
                   floor=14, kind="PARITY") as r:
+        # The delivering routines are enumerated by what they do (they call Sink::matched / Sink::context), and every
+        # obligation is a positive one on each of them. Two faithful views of the program are tried: with new helpers spliced
+        # into their callers (a helper extracted from a sibling), and as written (siblings merged into one parameterised
+        # routine are then one sibling, with the callers passing the kind). The rule holds if it holds in one of them.
+        from ..engine import Rule
+        t1 = Rule(ctx, r.id, r.statement, None, False, r.kind)
+        deliver_body(ctx, t1, facts)
+        chosen = t1
+        if t1.violations and facts.raw is not facts:
+            t2 = Rule(ctx, r.id, r.statement, None, False, r.kind)
+            try:
+                deliver_body(ctx, t2, facts.raw)
+                if not t2.violations:
+                    chosen = t2
+            except Exception:
+                pass
+        r.instances += chosen.instances
+        r.violations += chosen.violations
+        r.fns |= chosen.fns
+    deliver_rest(ctx)
+
+
+def deliver_body(ctx, r, facts):
+    sib = siblings(facts)
+    if True:
         msib = [f.name for f, dc in sib if dc.is_(SINK + "::matched")]
         csib = [f.name for f, dc in sib if dc.is_(SINK + "::context")]
         if len(msib) != 1 or not csib:
@@ -259,6 +289,11 @@ def run(ctx):
             else:
                 r.bad("route|" + caller, "%s does not deliver context of kind %s" % (caller, k), fn=g, construct="kind")
 
+
+
+def deliver_rest(ctx):
+    facts = ctx.facts
+    sib = siblings(facts)
     with ctx.rule("C03.BREAK", "separator ⇔ (before>0 ∨ after>0) ∧ has_sunk ∧ last_line_visited < start (16 rows); consulted before matches and before-context",
                   floor=18, exhaustive=True, kind="TRUTH/DOM") as r:
         # decided on the MIR (a table over concrete values), so that guard clauses, a negated disjunction or a match spell
@@ -297,6 +332,12 @@ def run(ctx):
         h = facts.fn(CORE + "::before_context_by_line")
         bc = h.calls_to(CORE + "::sink_break_context")
         sb = h.calls_to(CORE + "::sink_before_context")
+        if not sb:
+            # the dedicated routine may have been merged into one that is told the kind: the delivery is then the call that
+            # passes SinkContextKind::Before (looked for in the function as written)
+            h = facts.raw.fn(CORE + "::before_context_by_line")
+            bc = h.calls_to(CORE + "::sink_break_context")
+            sb = kind_calls(h, "Before")
         if bc and sb and always_after(h, [c.bb for c in bc], [c.bb for c in sb]):
             r.ok("before_context", "sink_break_context before each sink_before_context", fn=h)
         else:
@@ -543,6 +584,12 @@ def run(ctx):
         z = cond_switches(g, lambda e: e.k == "bin" and e[1] == "Eq" and mentions_field(e, CORE, "after_context_left")
                           and any(y.k == "const" and y[1] == 0 for y in (e[2], e[3])), ebg)
         sa = g.calls_to(CORE + "::sink_after_context")
+        if not sa:
+            g = facts.raw.fn(CORE + "::after_context_by_line")
+            ebg = ExprBuilder(g)
+            z = cond_switches(g, lambda e: e.k == "bin" and e[1] == "Eq" and mentions_field(e, CORE, "after_context_left")
+                              and any(y.k == "const" and y[1] == 0 for y in (e[2], e[3])), ebg)
+            sa = kind_calls(g, "After")
         if z and sa and not guarded(g, [sa[0].bb], z, False):
             r.ok("after|zero", "no after-context is delivered when after_context_left == 0", fn=g)
         else:
